@@ -24,14 +24,15 @@ def probe_cost(impl):
 def _burn_and_build(args):
     """Runs in a pool worker: allocates `burn` identities (what a worker does for
     every rejected candidate), then builds a tree and sends it back."""
+    import os
     import impl
     burn, shape = args
-    for _ in range(burn):
-        impl.Node('burnt')
-    return impl.from_shape(shape)
+    got = [impl.Node('burnt').id for _ in range(burn)]
+    t = impl.from_shape(shape)
+    return t, got + [n.id for n in impl.nodes.dfs(t)], os.getpid()
 
 
-def cross_process_probe(impl, rng, rounds, redup=True):
+def cross_process_probe(impl, rng, rounds, redup=True, model=None):
     """Identities across a fork-based pool: trees built in workers come back to
     the main process, which then (a) allocates identities itself and (b)
     re-duplicates a list holding the worker-made tree followed by a widely
@@ -45,7 +46,23 @@ def cross_process_probe(impl, rng, rounds, redup=True):
             burns = [rng.choice([0, 3, 17, 40, 90, 150]) for _ in range(4)]
             shapes = [gen_small_shape(rng, 3) or ('a', 'b') for _ in burns]
             shapes = [s if not isinstance(s, str) else (s, 'k') for s in shapes]
-            made = pool.map(_burn_and_build, list(zip(burns, shapes)), chunksize=1)
+            c0 = counter(impl)
+            back = pool.map(_burn_and_build, list(zip(burns, shapes)), chunksize=1)
+            c1 = counter(impl)
+            made = [b[0] for b in back]
+            if model is not None:
+                # TIE-C with Model/Alloc.v: the identities issued in the window, by whichever process, and the counter after it
+                pids = sorted({b[2] for b in back})
+                evs = [pids.index(b[2]) + 1 for b in back for _ in b[1]] + [0] * probe_cost(impl)
+                real = sorted([i for b in back for i in b[1]] + ([c1] if probe_cost(impl) else []))
+                got = model.batch([(27, [c0, evs])])[0]
+                if got[0] != real or got[1] != c1:
+                    local = sorted(got[2]) == sorted(i for b in back for i in b[1])
+                    problems.append(dict(op='allocator', kind='disagree', input=dict(counter_before=c0, allocations_per_task=[len(b[1]) for b in back],
+                                                                                     processes=len(pids)),
+                                         observed=f'identities issued in the window {real[:12]}… counter after {c1}',
+                                         expected=f'model of the shared allocator: {got[0][:12]}… counter {got[1]}'
+                                         + (' (the observed identities are those of per-process counters, Props/C13.local_counters_refuted)' if local else '')))
             wid = [[n.id for n in impl.nodes.dfs(t)] for t in made]
             flat = [i for ids in wid for i in ids]
             cases += 1
